@@ -124,6 +124,19 @@ def join(a: AV, b: AV) -> AV:
         return b
     if b.cls == "empty" and a.num == "obj":
         return a
+    # "a value or a sequence of such values" (try: zip(x, y) / except
+    # TypeError: [[x, y]]): the sequence carries its elements' unit / kind
+    def _lift(c, other):
+        if (other.unit is None and other.kind is None) or \
+                other.elem is not None or other.elts is not None or \
+                c.unit is not None or c.kind is not None:
+            return c
+        e = c.elem if c.elem is not None else (
+            c.elts[0] if c.elts is not None and len(c.elts) == 1 else None)
+        if e is not None and (e.unit is not None or e.kind is not None):
+            return c.with_(unit=e.unit, kind=e.kind)
+        return c
+    a, b = _lift(a, b), _lift(b, a)
     elts = None
     if a.elts is not None and b.elts is not None and \
             len(a.elts) == len(b.elts):
@@ -810,6 +823,13 @@ class Interp:
         return AV(num="obj", cls="dict", elem=el)
 
     def iter_elem(self, it: AV, node=None) -> AV:
+        if self.lib and (it.unit is not None or it.kind is not None or
+                         it.idx is not None):
+            # facets carried by the container itself (an array in radians)
+            # belong to its elements
+            v = self.lib.iter_elem(self, it, node)
+            if v is not None:
+                return v
         if it.elem is not None:
             return it.elem
         if it.elts is not None and it.elts:
